@@ -499,7 +499,8 @@ fn retention_scenarios(out: &mut NdjsonWriter, which: &[u32]) {
             let pools: Vec<Pool> = match variant % 3 {
                 0 => if on_grid { vec![] } else { vec![Pool::Sapling, Pool::Orchard] },
                 1 => if on_grid { vec![Pool::Orchard] } else { vec![Pool::Sapling] },
-                _ => vec![[Pool::Sapling, Pool::Orchard, Pool::Ironwood][(i % 3) as usize]],
+                // Sapling in every block (more own checkpoints than the budget in one long batch), the others alternating
+                _ => vec![Pool::Sapling, [Pool::Orchard, Pool::Ironwood][(i % 2) as usize]],
             };
             let txs: Vec<TxReq> = pools
                 .iter()
@@ -570,7 +571,7 @@ fn main() {
         stale_frontier_scenario(&mut out);
     } else if args[2] == "retention-scenarios" {
         let all = args.get(3).map(|s| s == "all").unwrap_or(false);
-        retention_scenarios(&mut out, if all { &[0, 1, 2, 3, 4, 5] } else { &[0, 4] });
+        retention_scenarios(&mut out, if all { &[0, 1, 2, 3, 4, 5] } else { &[0, 4, 5] });
     } else if args[2] == "tree-scenarios" {
         // quick: one variant per network; "all": every variant on both
         let all = args.get(3).map(|s| s == "all").unwrap_or(false);
